@@ -1080,6 +1080,19 @@ void MatrixInversion(matrix *m, matrix *m_inv)
     }
 
     for(i = 0; i < m->row; i++){
+      /* partial pivoting: bring the largest entry of column i (from row i down) to the diagonal */
+      size_t pivot = i;
+      for(j = i+1; j < m->row; j++){
+        if(fabs(AI->data[j][i]) > fabs(AI->data[pivot][i])){
+          pivot = j;
+        }
+      }
+      if(pivot != i){
+        double *tmp_row = AI->data[i];
+        AI->data[i] = AI->data[pivot];
+        AI->data[pivot] = tmp_row;
+      }
+
       for(j = 0; j < m->col; j++){
         if(i!=j){
           ratio = AI->data[j][i] / AI->data[i][i];
